@@ -191,6 +191,19 @@ def _one_run(model, cfg, want_sampler):
             s = ACHRSampler(model, thinning=cfg["thin"], nproj=nproj, seed=cfg["seed"])
         else:
             s = OptGPSampler(model, thinning=cfg["thin"], processes=cfg["P"], nproj=nproj, seed=cfg["seed"])
+        if cfg.get("other", 0):
+            # another sampler object, on another model (every bound three times as wide), is created -- and used --
+            # before this one samples: sampler objects do not share state
+            other_model = model.copy()
+            for r in other_model.reactions:
+                r.bounds = (3 * r.lower_bound, 3 * r.upper_bound)
+            try:
+                o = (OptGPSampler(other_model, thinning=1, processes=1, seed=77) if cfg["other"] == 2 or cfg["method"] == "optgp"
+                     else ACHRSampler(other_model, thinning=1, seed=77))
+                if cfg["other"] == 2:
+                    o.sample(3)
+            except ValueError:
+                pass        # a documented refusal of the OTHER sampler is not this sampler's business
         df = s.sample(cfg["n"], fluxes=cfg["fluxes"])
         for _ in range(cfg.get("rounds", 1) - 1):       # further calls on the same sampler object
             import pandas as pd
